@@ -43,8 +43,8 @@ func (q *Query) Need(x string) (interface{}, error) {
 func (q *Query) Need2(x string, o string) (interface{}, error) {
 	return q.r("need2", map[string]interface{}{"x": x, "o": o})
 }
-func (q *Query) Obj(in map[string]interface{}, l []interface{}) (interface{}, error) {
-	return q.r("obj", map[string]interface{}{"in": in, "l": l})
+func (q *Query) Obj(in map[string]interface{}, l []interface{}, ins []interface{}, ll []interface{}) (interface{}, error) {
+	return q.r("obj", map[string]interface{}{"in": in, "l": l, "ins": ins, "ll": ll})
 }
 
 type Mutation struct {
